@@ -178,6 +178,9 @@ func (u *Unit) quickUnsat(asserts []*Term) bool {
 func (f *Frame) inferLoopInvariants(li *loopInfo, b *ssa.BasicBlock, phis []*ssa.Phi, pre map[*ssa.Phi]*Term, preState BState) (kept []*autoCand) {
 	u := f.u
 	tb := f.tb()
+	if u.noInfer {
+		return nil
+	}
 	cands := f.loopCandidates(li, phis, pre)
 	if len(cands) == 0 || f.spec {
 		return nil
@@ -204,12 +207,14 @@ func (f *Frame) inferLoopInvariants(li *loopInfo, b *ssa.BasicBlock, phis []*ssa
 	}
 	nsym := u.nsym
 	np, nb := len(u.ptrs), len(u.b2s)
+	nalloc := len(u.allocs)
 	ptrSeen := map[[2]int]bool{}
 	for k, v := range u.ptrSeen {
 		ptrSeen[k] = v
 	}
 	rollback := func() {
 		u.ptrs = u.ptrs[:np]
+		u.allocs = u.allocs[:nalloc]
 		u.b2s = u.b2s[:nb]
 		u.ptrSeen = map[[2]int]bool{}
 		for k, v := range ptrSeen {
